@@ -410,7 +410,7 @@ def run_impl(spec, cfg, mode, stub=None):
             state['in_scipy'] = True
             try:
                 if stub is not None:
-                    x, i = stub(k2['A'], k2['b'], k2['x0'], k2['M'], cb2)
+                    x, i = stub(k2['A'], k2['b'], k2.get('x0'), k2.get('M'), cb2)
                 else:
                     x, i = o_ssl[name](*a, **k2)
             except S._ConvergenceError:
@@ -1006,7 +1006,7 @@ def stub_precond_then_breakdown(A, b, x0, M, cb):
     tiny vector (which multigrid 'solves' below tol*|b|), then a breakdown return code."""
     if M is not None:
         M.matvec(b * 1e-12)
-    return x0.copy(), -10
+    return (x0.copy() if x0 is not None else np.zeros_like(b)), -10
 
 
 def nonpec_block():
@@ -1063,9 +1063,16 @@ def search(ctx, broken):
         if mode == 'bad' and rng.random() < 0.5:
             sp['bad_scale'] = rng.choice([1e3, 1e6])
         cases.append((sp, rand_cfg(rng), mode, None))
+    crashed = 0
     for spec, cfg, mode, stub in cases:
-        R = run_impl(spec, cfg, mode, stub=STUBS[stub])
-        h = property_check(R)
+        try:
+            R = run_impl(spec, cfg, mode, stub=STUBS[stub])
+            h = property_check(R)
+        except Exception as e:     # the harness could not drive this case on the current tree
+            crashed += 1
+            if crashed <= 3:
+                ctx.notes.append(f"searcher: case {mode} {cfg.get('sslsolver')} could not run: {e!r}"[:300])
+            continue
         if h and h['signature'] not in seen:
             if stub:
                 h['krylov_stub'] = stub
